@@ -304,6 +304,7 @@ func (r *vRecorder) nodeRun(steps int) {
 			r.noteFrame(s)
 			post := e.views(r.universe)
 			a := vAct{Act: "Unsub1", S: s, Sp: sp, P: P}
+			r.checkWithdrawn(a, pre, post)
 			if len(pre.RecPat[s-1]) != len(post.RecPat[s-1]) {
 				// the call removed patterns: its second section (RemoveTagsCtx) is a step of its own
 				r.emit(a, nil, nil)
@@ -365,7 +366,9 @@ func (r *vRecorder) nodeRun(steps int) {
 		case c < 90: // close hook
 			for i, s := range r.st {
 				if s == "removed" && pick(2) == 0 {
+					hookBefore := e.views(r.universe)
 					e.onStreamClose(i + 1)
+					r.checkWithdrawn(vAct{Act: "OnStreamClose", S: i + 1}, hookBefore, e.views(r.universe))
 					r.st[i] = "gone"
 					r.emit(vAct{Act: "OnStreamClose", S: i + 1}, r.outView(e.flush(e.allModels()), false), r.stView(true))
 					break
@@ -374,6 +377,7 @@ func (r *vRecorder) nodeRun(steps int) {
 		default: // administration
 			sp := []string{"X", "X", "Y"}[pick(3)]
 			a := cfg.Accounts[pick(2)]
+			adminBefore := e.views(r.universe)
 			var act vAct
 			switch pick(6) {
 			case 0:
@@ -394,6 +398,7 @@ func (r *vRecorder) nodeRun(steps int) {
 					act.Act = "AddMember"
 				}
 			}
+			r.checkWithdrawn(act, adminBefore, e.views(r.universe))
 			r.emit(act, r.outView(e.flush(e.allModels()), false), r.stView(true))
 		}
 		r.checkQuiescent()
